@@ -7,7 +7,7 @@ LIST=$(mktemp /tmp/rf_list.XXXXXX)
 python3 - "$1" <<'PY' > "$LIST"
 import json,sys,glob
 sub=sys.argv[1] if len(sys.argv)>1 else ""
-for g in ("A","B","C","D","E","F","G","H","I","J","K","L","M"):
+for g in ("A","B","C","D","E","F","G","H","I","J","K","L","M","N","O","P","Q"):
     if not __import__("os").path.exists(f"/verif/refactors/{g}.json"): continue
     for i,r in enumerate(json.load(open(f"/verif/refactors/{g}.json")),1):
         name=f"{g}_{i}"
@@ -15,11 +15,11 @@ for g in ("A","B","C","D","E","F","G","H","I","J","K","L","M"):
         props=sorted(set(p for p in r["properties"] if p!="C06"))
         if not props:
             # no properties named by the author: every check that has a function of a touched file under contract
-            FILES={"acse.py":"C07 C10 C11 C12 C13 C14 C26","ae.py":"C11 C12 C14","pdu.py":"C01 C02 C10 C11 C13","pdu_items.py":"C01 C02 C10 C11 C13",
+            FILES={"acse.py":"C07 C10 C11 C12 C13 C14 C24 C26","ae.py":"C11 C12 C14","pdu.py":"C01 C02 C10 C11 C13","pdu_items.py":"C01 C02 C10 C11 C13",
                    "dul.py":"C02 C03 C05 C08 C09 C27","transport.py":"C03 C05 C08 C27","association.py":"C07 C08 C09 C18 C19 C20 C23 C24",
                    "utils.py":"C02 C12","_validators.py":"C12","dimse.py":"C02 C08 C15 C17 C23","dimse_messages.py":"C15 C16 C17 C19 C25",
-                   "service_class.py":"C07 C20 C21 C22 C23 C26 C28","handlers.py":"C30","common.py":"C30","db.py":"C29","dsutils.py":"C25",
-                   "timer.py":"C05 C09","events.py":"C26","fsm.py":"C04 C05 C27","presentation.py":"C10 C11 C12","status.py":"C28"}
+                   "service_class.py":"C07 C20 C21 C22 C23 C26 C28","handlers.py":"C30","common.py":"C30","db.py":"C29","dsutils.py":"C21 C25",
+                   "timer.py":"C04 C05 C09","events.py":"C13 C26","fsm.py":"C04 C05 C07 C27","presentation.py":"C10 C11 C12","status.py":"C28"}
             touched=[l.split("/")[-1].strip() for l in open(f"/verif/refactors/{name}.diff") if l.startswith("+++ ")]
             props=sorted(set(x for t in touched for x in FILES.get(t,"").split()))
         print(name, ",".join(props))
